@@ -317,7 +317,7 @@ MANIFEST = dict(
           "variant <-> output prefix type, id requirement, and -- with a protobuf wire decoder written in TLA+ (KeyFormatWire.tla, "
           "field tables transcribed from proto/*.proto) -- that every parameter sits at its documented proto field. KeysetIO.tla "
           "models handle -> proto keyset -> writer (binary|JSON x cleartext|encrypted(kek, ad)|noSecrets) -> reader; it is model "
-          "checked (85k / 1.4M states) and every writer x reader pair (16 x 16) is executed on TLC-generated keysets (catalog "
+          "checked (85k / 991k states) and every writer x reader pair (16 x 16) is executed on TLC-generated keysets (catalog "
           "singles with ids 0 / 2^32-1, all ordered pairs with DISABLED / DESTROYED keys, all material-type sequences, seeded "
           "random); Trace_KeysetIO.tla judges projections, Public() and primitive interoperability (aead, daead, mac, prf, "
           "signature, hybrid) between original and re-read handle."),
